@@ -33,6 +33,8 @@ def open_endpoint(ctx):
     if ctx.get("maxMsg"):
         opts["maxMessagePayloadSize"] = ctx["maxMsg"]
     opts.update(ctx.get("opts") or {})
+    if ctx.get("autoping"):
+        opts.update(autoPingInterval=1, autoPingTimeout=0)
     log = []
     if ctx["role"] == "server":
         if ctx["compress"]:
@@ -48,6 +50,11 @@ def open_endpoint(ctx):
         else:
             p, t = wsx.open_client(opts, log)
     assert (p._perMessageCompress is not None) == bool(ctx["compress"])
+    if ctx.get("autoping"):
+        # the endpoint's own automatic ping is on its way and unanswered while the octets under test arrive: what they mean
+        # does not depend on that
+        fw.advance(1.0)
+        assert t.unread(), "no automatic ping was sent"
     t.take()
     del log[:]
     return p, t, log
@@ -108,6 +115,11 @@ class Session:
             parts = [data]
         elif seg == "bytes":
             parts = [data[i:i + 1] for i in range(len(data))]
+        elif seg == "burst":
+            # several reads before the event loop turns (asyncio: data_received() x n, then the consumer runs): same verdict
+            k = max(1, len(data) // 3)
+            parts = [data[i:i + k] for i in range(0, len(data), k)]
+            return fw.feed_burst(self.p, parts)
         else:
             parts = [data[i:i + seg] for i in range(0, len(data), seg)]
         for part in parts:
@@ -390,7 +402,7 @@ def run_seq(inp, rng):
         frames = gen_sequence(rng, ctx)
         cases += 1
         runs = []
-        segsets = ["whole", "bytes", rng.choice([2, 3, 7]), "coalesced"]
+        segsets = ["whole", "bytes", rng.choice([2, 3, 7]), "coalesced", "burst"]
         keyseed = rng.getrandbits(32)
         for seg in segsets:
             krng = random.Random(keyseed)
